@@ -793,13 +793,13 @@ def gen_plan(prop, run_seed, tier):
     F = Forks(run_seed)
     w, s, f = F.fork("workload"), F.fork("schedule"), F.fork("faults")
     mode = w.choice(["retrospective", "retrospective", "prospective"])
-    n_plates = w.randint(2, 7) if w.random() < 0.9 else w.randint(11, 13)  # >= 11 steps: iter_10 sorts before iter_2 as a string
+    n_plates = w.randint(2, 7) if w.random() < 0.82 else w.randint(11, 13)  # >= 11 steps: iter_10 sorts before iter_2 as a string
     plan = dict(engine="orchsim", prop=prop, mode=mode, batch_size=w.randint(1, 4), n_plates=n_plates,
                 n_observed=w.randint(1, max(1, n_plates - 2)), n_chains=w.randint(1, 2), n_chunks=w.randint(1, 3),
                 seed=s.randrange(2**31), real=(f.random() < (0.01 if tier == "quick" else 0.02)),
                 n_crashes=f.choice([1, 1, 2] if tier == "quick" else [1, 2, 2, 3]), crash_u=[f.random() for _ in range(3)],
                 crash_bias=f.choice(["uniform", "uniform", "after-step", "inside-makedirs", "inside-rmtree", "between-publish"]),
-                crash_delivery=[f.choice(["kill", "kill", "nonzero-exit", "ctrl-c"]) for _ in range(3)],
+                crash_delivery=[f.choice(["kill", "nonzero-exit", "ctrl-c"]) for _ in range(3)],
                 reorder=(tier == "thorough" and f.random() < 0.25), enumerate_single=(tier == "thorough" and f.random() < 0.05),
                 dyn_rmtree=(f.randint(1, 8) if f.random() < 0.3 else 0))
     return normalise(plan)
